@@ -112,6 +112,18 @@ class C04(Check):
                               ['P0', 'P2', 'B', 'P1', 'I'], ['S', 'B'], [], ['?B', 'B'], ['?S', 'B', 'I'],
                               ['?B', '?B', 'I'], ['P1', '?S', 'P2', 'B'], ['?C', '?B', '?S']])
             maxb = None
+            if rng.random() < .25:      # the application replaces wsgi.input through the request's item assignment
+                nd = bl.gen_payload(rng, max(0, rng.choice([0, cl - 1, cl, cl + 3, rng.randint(0, 40)])))
+                r1 = bl.rop(nd, bl.gen_sched(rng, max(1, len(nd)))[:30])
+                r2 = bl.rop(bl.gen_payload(rng, rng.randint(0, 12)), [1] * rng.randint(0, 3))
+                lo = bl.lop(cl_spelling(rng, max(0, cl + rng.choice([-2, -1, 0, 1, 3]))) or '')
+                ops = rng.choice([['B', r1, 'B'], ['?S', r1, 'B', 'I'], ['?B', r1, 'B'], ['B', 'K', r1, 'B', 'O', 'B'],
+                                  ['P2', r1, 'P3', 'B'], [r1, 'B'], ['B', r1, r2, 'B', 'I'], ['K', r1, '?B', 'O', 'B'],
+                                  ['?B', 'K', r1, 'B', 'O', '?B'], ['B', r1, 'P1', r2, '?S'],
+                                  ['B', lo, r1, 'B'], [r1, lo, 'C', 'B'], ['C', lo, 'C', '?B'], ['B', r1, lo, 'B', 'I']])
+                if rng.random() < .3:
+                    maxb = rng.randint(0, len(data) + 2)       # so that the first access can be a 413
+                bl.bump(st, 'wsgi:replace-input')
             mk = '@' if rng.random() < .8 else rng.choice(list(bl.MAPS))
             hook, ov = None, None
             if rng.random() < .15:
@@ -167,6 +179,9 @@ class C04(Check):
                 if pos + n > lim:
                     return ('wsgi:read-beyond-content-length',
                             f'read({n}) issued at offset {pos} with Content-Length {cl} (repeated access after a 413)')
+        bad = self._replace_oracle(data, cl, buf, sched, want, lim)
+        if bad:
+            return bad
         # other accessors first (they may refuse the body as form text), then the body: same bytes
         for ctype, ops in (('application/json', ['?J', 'B']), ('application/x-www-form-urlencoded', ['?F', 'B']),
                            (None, ['?S', 'P1', 'B'])):
@@ -176,6 +191,50 @@ class C04(Check):
             for pos, n in w2['calls']:
                 if pos + n > lim:
                     return 'wsgi:read-beyond-content-length', f'read({n}) issued at offset {pos} with Content-Length {cl}'
+        return None
+
+    def _replace_oracle(self, data, cl, buf, sched, want, lim):
+        """the application replaces wsgi.input (item assignment on the request, also on a copy): the next read
+        presents the first Content-Length bytes of the NEW stream, read within its Content-Length"""
+        if cl < 0:
+            return None
+        clh = str(cl)
+        new = bytes(reversed(data)) + b'NEW'
+        nsched = [1, 2] * 8
+        rp = bl.rop(new, nsched)
+
+        def within(w, k, limit):
+            return all(pos + n <= limit for pos, n in w['streams'][k].calls) if len(w['streams']) > k else False
+        for ctype, ops, firsts in ((None, ['B', rp, 'B', 'I'], [want]), ('application/json', ['?J', rp, 'B'], []),
+                                   (None, [rp, 'B'], []), (None, ['P1', rp, 'P2', 'B'], [])):
+            w = bl.run_wsgi('@', buf, None, clh, None, data, sched, ops, ctype=ctype)
+            if w['status'] != 200 or w['info'].get('bodies') != firsts + [new[:lim]]:
+                got = w['info'].get('bodies', [None])[-1]
+                key = 'replace:old-body-presented' if got == want and want != new[:lim] else 'replace:body-differs'
+                return key, (f'after request["wsgi.input"] = new stream ({"".join(o[0] for o in ops)}): status {w["status"]}, '
+                             f'body {got!r:.40}, expected the first {lim} bytes of the new stream')
+            if not within(w, 1, lim):
+                return 'replace:read-beyond-content-length', 'the new stream was read beyond Content-Length'
+        # on a copy of the request; the original keeps its buffered body
+        w = bl.run_wsgi('@', buf, None, clh, None, data, sched, ['B', 'K', rp, 'B', 'O', 'B'])
+        if w['status'] != 200 or w['info'].get('bodies') != [want, new[:lim], want]:
+            return 'replace:copy', f'request.copy() with a replaced stream: bodies {w["info"].get("bodies")!r:.80}'
+        # a rejected first read (size limit), then a new stream that fits
+        if lim >= 2 and len(want) == lim:
+            small = bytes(reversed(data[:lim - 1]))
+            w = bl.run_wsgi('@', buf, lim - 1, clh, None, data, sched, ['?B', bl.rop(small, [1]), 'B'])
+            if w['status'] != 200 or w['outs'][:1] != ['e:HTTP413'] or w['info'].get('bodies') != [small]:
+                return 'replace:after-rejected-read', (f'413, then a new stream of {len(small)} bytes: status {w["status"]}, '
+                                                       f'outs {w["outs"]}')
+        # Content-Length reassigned together with the stream (either order)
+        for cl2 in {cl + 2, max(0, cl - 2)} - {cl}:
+            for ops in (['B', bl.lop(str(cl2)), rp, 'B'], [rp, bl.lop(str(cl2)), 'B']):
+                w = bl.run_wsgi('@', buf, None, clh, None, data, sched, ops)
+                if w['status'] != 200 or w['info'].get('bodies', [None])[-1] != new[:cl2] or not within(w, 1, cl2):
+                    got = w['info'].get('bodies', [None])[-1]
+                    return 'setitem:stale-content-length', (
+                        f'request["CONTENT_LENGTH"] = "{cl2}" (was {cl}) and a new stream: body of {len(got) if got is not None else None} '
+                        f'bytes presented, the new Content-Length says {min(cl2, len(new))}')
         return None
 
     def search(self, rng, n, seeds):
